@@ -76,6 +76,11 @@ Theorem truhlar_chain : TruhlarChain.truhlar_chain_stmt.
 Proof. exact TruhlarChain.truhlar_chain. Qed.
 Print Assumptions truhlar_chain.
 
+(* the same with 'all' (what H and He lose) on top of the chain: it counts as max_am + 1 months *)
+Theorem truhlar_chain_all : TruhlarChain.truhlar_chain_all_stmt.
+Proof. exact TruhlarChain.truhlar_chain_all. Qed.
+Print Assumptions truhlar_chain_all.
+
 Definition chain_demo_shells : list sshell :=
   [ mkShell "gto" "" [0%Z] ["10.0"; "0.5"] [["1.0"; "0.0"]; ["0.0"; "1.0"]];
     mkShell "gto" "" [1%Z] ["3.0"; "0.2"] [["1.0"; "0.0"]; ["0.0"; "1.0"]];
